@@ -744,37 +744,39 @@ class EncodingParser(object):
             # other tag name
             self.data.previous()
             return self.handlePossibleTag(False)
-        # We have a valid meta element we want to search for attributes
-        hasPragma = False
-        pendingEncoding = None
+        # We have a valid meta element: look at all of its attributes (the
+        # first of each name) before deciding
+        seen = set()
+        gotPragma = False
+        needPragma = None
+        charset = None
         while True:
             # Try to find the next attribute after the current position
             attr = self.getAttribute()
             if attr is None:
-                return True
-            else:
-                if attr[0] == b"http-equiv":
-                    hasPragma = attr[1] == b"content-type"
-                    if hasPragma and pendingEncoding is not None:
-                        self.encoding = pendingEncoding
-                        return False
-                elif attr[0] == b"charset":
-                    tentativeEncoding = attr[1]
+                break
+            name, value = attr
+            if name in seen:
+                continue
+            seen.add(name)
+            if name == b"http-equiv":
+                gotPragma = value == b"content-type"
+            elif name == b"content":
+                tentativeEncoding = ContentAttrParser(EncodingBytes(value)).parse()
+                if tentativeEncoding is not None and needPragma is None:
                     codec = lookupEncoding(tentativeEncoding)
                     if codec is not None:
-                        self.encoding = codec
-                        return False
-                elif attr[0] == b"content":
-                    contentParser = ContentAttrParser(EncodingBytes(attr[1]))
-                    tentativeEncoding = contentParser.parse()
-                    if tentativeEncoding is not None:
-                        codec = lookupEncoding(tentativeEncoding)
-                        if codec is not None:
-                            if hasPragma:
-                                self.encoding = codec
-                                return False
-                            else:
-                                pendingEncoding = codec
+                        charset = codec
+                        needPragma = True
+            elif name == b"charset":
+                charset = lookupEncoding(value)
+                needPragma = False
+        # a tag cut short by the end of the data declares nothing
+        self.data.currentByte  # pylint:disable=pointless-statement
+        if needPragma is None or (needPragma and not gotPragma) or charset is None:
+            return True
+        self.encoding = charset
+        return False
 
     def handlePossibleStartTag(self):
         return self.handlePossibleTag(False)
